@@ -6,6 +6,7 @@
    their source text and carries decorator.go's avoid table. *)
 From Coq Require Import List String ZArith NArith Bool.
 Import ListNotations.
+From DV Require Import Model.Decision Gen.GoastImportsSrc Proofs.GoastStepProofs.
 From DV Require Import Model.Resolvers Proofs.ResolverProofs Proofs.ResolverAgree Gen.ResolverSrc
   Model.Decision Model.DecisionInterp Gen.DecisionSrc Proofs.DecisionProofs.
 Local Open Scope string_scope.
@@ -128,6 +129,34 @@ Example C09_vendor_prefix_removed :
   expected_path "root/main" (FieldKey (Some "root/a")) = "".
 Proof. vm_compute. repeat split. Qed.
 
+
+(* goast.DecoratorResolver.imports is no longer pinned by hash as a whole: the case of its traversal for
+   one import spec is translated on every run (a decision program over the spec: skip "C" and blank
+   imports, refuse dot-imports, resolve the name of an unnamed import, refuse a second package under one
+   name, else add) and proved to be one step of the model's goast_scan, for every spec, name resolver and
+   table built so far (goast_scan_by_steps: the model's scan is the iteration of that step); what surrounds
+   the case -- the lock, the per-file cache, the traversal that stops at the first declaration that is no
+   import -- is pinned with the case body struck out *)
+Theorem C09_goast_import_case_source_computes_the_model :
+  forall name_of s acc,
+    match run (step_val name_of s acc) goast_spec_step_src with
+    | OReturn (DVal r) => step_sym name_of s acc r = Some (scan_step name_of s acc)
+    | _ => False
+    end.
+Proof. exact goast_step_source_is_model. Qed.
+
+Theorem C09_goast_scan_iterates_the_step :
+  forall name_of s r acc,
+  Model.Resolvers.goast_scan name_of (s :: r) acc
+  = match scan_step name_of s acc with
+    | Model.Resolvers.GIError w => Model.Resolvers.GIError w
+    | Model.Resolvers.GIOk acc' => Model.Resolvers.goast_scan name_of r acc'
+    end.
+Proof. exact goast_scan_by_steps. Qed.
+
+Theorem C09_goast_imports_source_is_within_the_vocabulary : step_vocabulary_ok && goast_imports_frame_ok = true.
+Proof. vm_compute. reflexivity. Qed.
+
 Print Assumptions C09_translated_sources_are_within_the_vocabulary.
 Print Assumptions C09_gotypes_source_computes_the_model.
 Print Assumptions C09_goast_source_computes_the_model.
@@ -141,3 +170,6 @@ Print Assumptions C09_gotypes_assigns_paths_exactly.
 Print Assumptions C09_gotypes_assigns_paths_exactly_forced_sel.
 Print Assumptions C09_avoided_positions_get_no_path.
 Print Assumptions C09_goast_refuses_dot_imports.
+Print Assumptions C09_goast_import_case_source_computes_the_model.
+Print Assumptions C09_goast_scan_iterates_the_step.
+Print Assumptions C09_goast_imports_source_is_within_the_vocabulary.
